@@ -5,6 +5,7 @@ use serde_json::Value;
 pub mod c01;
 pub mod c02;
 pub mod c07;
+pub mod c10;
 pub mod c13;
 pub mod c14;
 pub mod c17;
@@ -14,6 +15,7 @@ pub fn run(ctx: &Ctx, sh: &mut Shard) {
         "C01" => c01::run(ctx, sh),
         "C02" => c02::run(ctx, sh),
         "C07" => c07::run(ctx, sh),
+        "C10" => c10::run(ctx, sh),
         "C13" => c13::run(ctx, sh),
         "C14" => c14::run(ctx, sh),
         "C17" => c17::run(ctx, sh),
@@ -28,6 +30,7 @@ pub fn replay(v: &Value, sh: &mut Shard) {
         "C01" => c01::replay(v, sh),
         "C02" => c02::replay(v, sh),
         "C07" => c07::replay(v, sh),
+        "C10" => c10::replay(v, sh),
         "C13" => c13::replay(v, sh),
         "C14" => c14::replay(v, sh),
         "C17" => c17::replay(v, sh),
